@@ -944,6 +944,23 @@ def run(only=None):
         hist.poisoned_histories(s, funcs, bad_args, probes)
         s.done()
 
+    if want("kept_results"):
+        from mc import hist as _h
+        s = rep.sub("kept_results", "every engine (5 widths x bitwise/table) and the shared calculators of the four front ends: calculate_checksum of 12 "
+                                    "messages in a row with every returned bitarray kept by the caller: after the last call each is still the CRC of its own message")
+        msgs = [("1" + env.det_bits(f"c05-kept-{i}", 40 + 7 * i)) for i in range(12)]
+        for w_ in WIDTHS:
+            for mode in MODES:
+                calc = BitCrcCalculator(LIBCFG[w_], table_based=(mode == "table"))
+                _h.kept_results(s, f"engine_crc{w_}_{mode}", [({"width": w_, "mode": mode, "message": m}, (lambda calc=calc, m=m: calc.calculate_checksum(bitarray(m)))) for m in msgs],
+                                obs=lambda r: r.to01() if hasattr(r, "to01") else repr(r))
+        for nm, cls_ in (("CRC8", CRC8), ("CRC9", CRC9), ("CRC16", CRC16), ("CRC32", CRC32)):
+            calc = getattr(cls_, "CALC", None)
+            if calc is not None and hasattr(calc, "calculate_checksum"):
+                _h.kept_results(s, f"{nm}.CALC", [({"front_end": nm, "message": m}, (lambda calc=calc, m=m: calc.calculate_checksum(bitarray(m)))) for m in msgs],
+                                obs=lambda r: r.to01() if hasattr(r, "to01") else repr(r))
+        s.done()
+
     if want("extreme_crc_values"):
         s = rep.sub("extreme_crc_values",
                     "messages constructed (GF(2) linear solve on the reference) so that the defined CRC is exactly all-zeros / all-ones: "
